@@ -1,4 +1,11 @@
 import Mps.Judge
+import MpsProps.Src.SrcCmpKeygen
+import MpsProps.Src.SrcCmpSign
+import MpsProps.Src.SrcCmpPresign
+import MpsProps.Src.SrcFrostKeygen
+import MpsProps.Src.SrcFrostSign
+import MpsProps.Src.SrcDoernerKeygen
+import MpsProps.Src.SrcDoernerSign
 import MpsProps.C01alg
 import MpsProps.C02alg
 import MpsProps.AlgGen
